@@ -313,7 +313,7 @@ def decideSym (known : List (BTerm × Bool)) : BTerm → Option Bool
 
 /-- decision by paths in the order graph (bounded depth) -/
 def decideGraph (known : List (BTerm × Bool)) (d : BTerm) : Option Bool :=
-  let fuel := 3
+  let fuel := 2
   match d with
   | .nlt x y =>
     if reach (nEdges known) fuel x y true then some true
